@@ -8,6 +8,7 @@ CONSTANTS
   NoParam <- NoP
   KwVals <- Kw
   MaxOps = 3
+  CtxPairs <- NoPairs
   Alphabet <- Ops11
   ConvProbes <- Probes11
   ProbeKeys <- Keys11
